@@ -12,7 +12,14 @@ open OllamaVerif OllamaVerif.Store
 
 /-- the store invariant: every blob file holds what its name says, and every readable manifest has all its
     layers and its config present with the recorded size and digest -/
-def Inv (env : Env) (st : Store) : Prop := BlobsOk env st ∧ NameInv env st
+def Inv (env : Env) (st : Store) : Prop := BlobsOk env st ∧ NameInv env st ∧ LegacyOk env st
+
+/-- the guard on the two injected operations that put a file under a blob name (`sha256-<hex>`, or the legacy
+    `sha256:<hex>` that `fixBlobs` will rename): the file holds that content.  `True` for everything else. -/
+def LitterOk (env : Env) : Op → Prop
+  | .litter (.colon r) c => isHex64 r = true → env.hash c = r
+  | .litterBlob k c => env.hash c = k
+  | _ => True
 
 /-- the request mentions digests only in the `sha256:<hex>` spelling (and is not the injected respelling) -/
 def CanonOp : Op → Prop
@@ -59,16 +66,42 @@ theorem apartOp_of_from {env : Env} (hinj : HashInj env) {st : Store} (hc : Guar
 /-- one proof for both variants of F16a: `Guard`/`GuardOp` are `True` when the repair is in, and the
     `sha256:` spelling conditions on the pinned tree -/
 theorem step_good {env : Env} (hinj : HashInj env) {st : Store} (hc : Guard env st) (hi : Inv env st)
-    (op : Op) (ho : GuardOp env op) (ch : Choice) (ha : ApartOp env st op ch) :
+    (op : Op) (ho : GuardOp env op) (ch : Choice) (ha : ApartOp env st op ch) (hlit : LitterOk env op) :
     Good env st (step env st op ch).1 (targets env st op ch) := by
-  obtain ⟨hb, hn⟩ := hi
+  obtain ⟨hb, hn, hleg⟩ := hi
   cases op with
   | upload d c => exact upload_good hb hc d c
   | create r =>
     exact (createAt_good hinj hb hc r (fun d hd => ho.imp id (fun h => h d hd)) _ _ ha).1
   | copy s d => exact copyAt_good hb hc hn _ _
   | delete n => exact deleteAt_good hb hc _
-  | prune => exact pruneStartup_good hb hc
+  | prune => exact pruneStartup_good hinj hb hc hleg
+  | litter j c =>
+    simp only [step, targets]
+    refine ⟨hb, fun h n m hm l hl => h n m hm l hl, hc, ?_, fun _ _ => rfl, fun _ _ _ _ _ _ _ h => h⟩
+    intro hl p hp r hr hx
+    unfold aset at hp
+    simp only [List.mem_cons] at hp
+    rcases hp with hp | hp
+    · subst hp
+      simp only at hr
+      subst hr
+      exact hlit hx
+    · unfold adel at hp; exact hl p (List.mem_filter.mp hp).1 r hr hx
+  | litterBlob k c =>
+    simp only [step, targets]
+    have hk : env.hash c = k := hlit
+    have bs : BlobStep env st { st with blobs := aset st.blobs k c } := by
+      refine ⟨rfl, fun _ h => Or.inl h, fun k' => ?_⟩
+      rw [blob_aset]
+      by_cases h : k' = k
+      · subst h
+        simp only [if_true]
+        cases ho' : st.blob k' with
+        | none => exact Or.inr ⟨Or.inr rfl, fun c' hc' => by injection hc' with e; rw [← e]; exact hk⟩
+        | some c0 => exact Or.inl (by rw [hinj c0 c ((hb k' c0 ho').trans hk.symm)])
+      · simp [h]
+    exact Good.ofBlobStep bs hb hc _
   | plant s d =>
     simp only [step, targets]
     cases hm : st.man s with
@@ -103,21 +136,21 @@ theorem step_good {env : Env} (hinj : HashInj env) {st : Store} (hc : Guard env 
     non-API fault operations plant/corrupt). -/
 theorem op_preserves_NameInv {env : Env} (hv : env.v.fixAlias = false) (hinj : HashInj env) (st : Store)
     (hc : Canonical st) (hi : Inv env st) (op : Op) (ho : CanonOp op) (ch : Choice)
-    (ha : ApartOp env st op ch) :
+    (ha : ApartOp env st op ch) (hlit : LitterOk env op) :
     Inv env (step env st op ch).1 ∧ Canonical (step env st op ch).1 :=
-  let g := step_good hinj (Or.inr hc) hi op (Or.inr ho) ch ha
-  ⟨⟨g.blobsOk, g.nameInv hi.2⟩, g.canon.resolve_left (by simp [hv])⟩
+  let g := step_good hinj (Or.inr hc) hi op (Or.inr ho) ch ha hlit
+  ⟨⟨g.blobsOk, g.nameInv hi.2.1, g.legacy hi.2.2⟩, g.canon.resolve_left (by simp [hv])⟩
 
 /-- **Operations on one model never damage another — pinned.**  Under the same guard: the manifest file of
     every name other than the operation's (resolved) target is unchanged, and every blob that such a readable
     manifest points to is still there with the same bytes. -/
 theorem op_frame {env : Env} (hinj : HashInj env) (st : Store) (hc : Canonical st) (hi : Inv env st)
-    (op : Op) (ho : CanonOp op) (ch : Choice) (ha : ApartOp env st op ch) (n : Name)
+    (op : Op) (ho : CanonOp op) (ch : Choice) (ha : ApartOp env st op ch) (hlit : LitterOk env op) (n : Name)
     (hn : n ∉ targets env st op ch) :
     (step env st op ch).1.man n = st.man n ∧
     ∀ m, st.man n = some (.readable m) → ∀ l ∈ m.all, ∀ c,
       st.blob l.digest.key = some c → (step env st op ch).1.blob l.digest.key = some c :=
-  let g := step_good hinj (Or.inr hc) hi op (Or.inr ho) ch ha
+  let g := step_good hinj (Or.inr hc) hi op (Or.inr ho) ch ha hlit
   ⟨g.frameMan n hn, fun m hm l hl c h => g.frameBlob n m hn hm l hl c h⟩
 
 /-- histories -/
@@ -128,7 +161,8 @@ def run (env : Env) : Store → List (Op × Choice) → Store
 /-- the guards along a history -/
 def RunGuard (env : Env) : Store → List (Op × Choice) → Prop
   | _, [] => True
-  | st, (op, ch) :: rest => CanonOp op ∧ ApartOp env st op ch ∧ RunGuard env (step env st op ch).1 rest
+  | st, (op, ch) :: rest =>
+    CanonOp op ∧ ApartOp env st op ch ∧ LitterOk env op ∧ RunGuard env (step env st op ch).1 rest
 
 theorem history_preserves_Inv {env : Env} (hv : env.v.fixAlias = false) (hinj : HashInj env)
     (ops : List (Op × Choice)) (st : Store) (ho : RunGuard env st ops) (hc : Canonical st)
@@ -137,8 +171,8 @@ theorem history_preserves_Inv {env : Env} (hv : env.v.fixAlias = false) (hinj : 
   | nil => exact ⟨hi, hc⟩
   | cons p rest ih =>
     obtain ⟨op, ch⟩ := p
-    obtain ⟨h1, h2, h3⟩ := ho
-    obtain ⟨hi', hc'⟩ := op_preserves_NameInv hv hinj st hc hi op h1 ch h2
+    obtain ⟨h1, h2, h2l, h3⟩ := ho
+    obtain ⟨hi', hc'⟩ := op_preserves_NameInv hv hinj st hc hi op h1 ch h2 h2l
     exact ih _ h3 hc' hi'
 
 /-! ### the guards are decidable: Boolean versions -/
@@ -194,9 +228,28 @@ theorem canonOp_of_B {op : Op} (h : canonOpB op = true) : CanonOp op := by
     simpa using h d hd
   · cases h
 
+def litterOkB (env : Env) : Op → Bool
+  | .litter (.colon r) c => !isHex64 r || env.hash c == r
+  | .litterBlob k c => env.hash c == k
+  | _ => true
+
+theorem litterOk_of_B {env : Env} {op : Op} (h : litterOkB env op = true) : LitterOk env op := by
+  cases op with
+  | litter j c =>
+    cases j with
+    | colon r =>
+      simp only [LitterOk]
+      intro hx
+      simp only [litterOkB, hx, Bool.not_true, Bool.false_or, beq_iff_eq] at h
+      exact h
+    | plain s => trivial
+  | litterBlob k c => simpa [LitterOk, litterOkB] using h
+  | _ => trivial
+
 def runGuardB (env : Env) : Store → List (Op × Choice) → Bool
   | _, [] => true
-  | st, (op, ch) :: rest => canonOpB op && apartOpB env st op ch && runGuardB env (step env st op ch).1 rest
+  | st, (op, ch) :: rest =>
+    canonOpB op && apartOpB env st op ch && litterOkB env op && runGuardB env (step env st op ch).1 rest
 
 theorem runGuard_of_B {env : Env} (ops : List (Op × Choice)) (st : Store) (h : runGuardB env st ops = true) :
     RunGuard env st ops := by
@@ -205,35 +258,51 @@ theorem runGuard_of_B {env : Env} (ops : List (Op × Choice)) (st : Store) (h : 
   | cons p rest ih =>
     obtain ⟨op, ch⟩ := p
     simp only [runGuardB, Bool.and_eq_true] at h
-    exact ⟨canonOp_of_B h.1.1, apartOp_of_B h.1.2, ih _ h.2⟩
+    exact ⟨canonOp_of_B h.1.1.1, apartOp_of_B h.1.1.2, litterOk_of_B h.1.2, ih _ h.2⟩
 
 theorem empty_Inv (env : Env) : Inv env Store.empty ∧ Canonical Store.empty := by
-  refine ⟨⟨?_, ?_⟩, ?_⟩
+  refine ⟨⟨?_, ?_, ?_⟩, ?_⟩
   · intro k c h; simp [Store.empty, Store.blob, aget] at h
   · intro n m h; simp [Store.empty, Store.man, aget] at h
+  · intro p hp; simp [Store.empty] at hp
   · intro n m h; simp [Store.empty, Store.man, aget] at h
 
-/-- **Startup prune is exact — pinned.**  If all digest strings are spelled `sha256:<hex>` and every manifest
-    parses, the blobs after the startup prune are exactly the blobs some readable manifest points to. -/
-theorem prune_exact_guarded (env : Env) (st : Store) (hc : Guard env st) (hnc : st.hasCorrupt = false)
-    (k : String) :
-    (pruneStartup env st).1.blob k = if st.keyReferenced k then st.blob k else none := by
+/-- **Startup prune is exact.**  The startup sequence is `fixBlobs` (every file `sha256:<rest>` is renamed
+    `sha256-<rest>`), then — unless some manifest fails to parse — `PruneLayers`.  If every manifest parses
+    (and, on the pinned tree, digest strings are spelled `sha256:`), then afterwards
+    * the blobs directory holds NO file whose name is not `sha256-<64 hex digits>`: leftovers of interrupted
+      pulls (`sha256-<hex>-partial`, `-partial-N`), `NewLayer` temp files, wrong-length or otherwise malformed
+      names, names with suffixes — every name class is deleted, none is skipped;
+    * a file `sha256-<k>` is there iff some readable manifest points to `k`, with the content it had after
+      `fixBlobs` (see `fixBlobs_blob`: the old content, or that of a legacy `sha256:<k>` file renamed over it). -/
+theorem prune_exact_guarded (env : Env) (st : Store) (hc : Guard env st) (hnc : st.hasCorrupt = false) :
+    (pruneStartup env st).1.junk = [] ∧
+    ∀ k, (pruneStartup env st).1.blob k = if st.keyReferenced k then (fixBlobs st).blob k else none := by
   unfold pruneStartup
   simp only [hnc, Bool.false_eq_true, if_false]
+  refine ⟨pruneLayers_junk_nil env (fixBlobs_junk_plain st), fun k => ?_⟩
+  have hc' : Guard env (fixBlobs st) := hc.imp id (fun h n m hm => h n m hm)
+  have hkr : (fixBlobs st).keyReferenced k = st.keyReferenced k := keyReferenced_congr rfl k
   rw [pruneLayers_blob]
   cases hk : st.keyReferenced k with
-  | true => rw [inUse_of_key hc (d := ⟨.colon, k⟩) (Or.inr rfl) hk]
+  | true => rw [inUse_of_key hc' (d := ⟨.colon, k⟩) (Or.inr rfl) (by rw [← hk]; exact hkr)]
   | false =>
-    cases hr : env.inUse st ⟨.colon, k⟩ with
+    cases hr : env.inUse (fixBlobs st) ⟨.colon, k⟩ with
     | false => rfl
     | true =>
       have := key_of_inUse hr
       simp only [Digest.key] at this
-      rw [hk] at this; cases this
+      rw [hkr, hk] at this; cases this
 
-theorem prune_exact (env : Env) (st : Store) (hc : Canonical st) (hnc : st.hasCorrupt = false) (k : String) :
-    (pruneStartup env st).1.blob k = if st.keyReferenced k then st.blob k else none :=
-  prune_exact_guarded env st (Or.inr hc) hnc k
+theorem prune_exact (env : Env) (st : Store) (hc : Canonical st) (hnc : st.hasCorrupt = false) :
+    (pruneStartup env st).1.junk = [] ∧
+    ∀ k, (pruneStartup env st).1.blob k = if st.keyReferenced k then (fixBlobs st).blob k else none :=
+  prune_exact_guarded env st (Or.inr hc) hnc
+
+/-- when a manifest fails to parse the prune is skipped: only `fixBlobs` runs, every other file stays -/
+theorem prune_skipped (env : Env) (st : Store) (hnc : st.hasCorrupt = true) :
+    (pruneStartup env st).1 = fixBlobs st := by
+  unfold pruneStartup; simp [hnc]
 
 /-! ## F16a repaired: the same theorems WITHOUT any spelling guard -/
 
@@ -241,40 +310,43 @@ theorem prune_exact (env : Env) (st : Store) (hc : Canonical st) (hnc : st.hasCo
     any spelling), every operation (including the injected plant / corrupt / dashify) and every iteration
     order. -/
 theorem op_preserves_NameInv_fixed {env : Env} (hv : env.v.fixAlias = true) (hk : env.v.fixKeep = true)
-    (hinj : HashInj env) (st : Store) (hi : Inv env st) (op : Op) (ch : Choice) :
+    (hinj : HashInj env) (st : Store) (hi : Inv env st) (op : Op) (ch : Choice) (hlit : LitterOk env op) :
     Inv env (step env st op ch).1 :=
-  let g := step_good hinj (Or.inl hv) hi op (Or.inl hv) ch (apartOp_of_fixKeep hk st op ch)
-  ⟨g.blobsOk, g.nameInv hi.2⟩
+  let g := step_good hinj (Or.inl hv) hi op (Or.inl hv) ch (apartOp_of_fixKeep hk st op ch) hlit
+  ⟨g.blobsOk, g.nameInv hi.2.1, g.legacy hi.2.2⟩
 
 /-- **Operations on one model never damage another — F16a repaired, no guard.** -/
 theorem op_frame_fixed {env : Env} (hv : env.v.fixAlias = true) (hk : env.v.fixKeep = true)
-    (hinj : HashInj env) (st : Store) (hi : Inv env st) (op : Op) (ch : Choice) (n : Name)
-    (hn : n ∉ targets env st op ch) :
+    (hinj : HashInj env) (st : Store) (hi : Inv env st) (op : Op) (ch : Choice) (hlit : LitterOk env op)
+    (n : Name) (hn : n ∉ targets env st op ch) :
     (step env st op ch).1.man n = st.man n ∧
     ∀ m, st.man n = some (.readable m) → ∀ l ∈ m.all, ∀ c,
       st.blob l.digest.key = some c → (step env st op ch).1.blob l.digest.key = some c :=
-  let g := step_good hinj (Or.inl hv) hi op (Or.inl hv) ch (apartOp_of_fixKeep hk st op ch)
+  let g := step_good hinj (Or.inl hv) hi op (Or.inl hv) ch (apartOp_of_fixKeep hk st op ch) hlit
   ⟨g.frameMan n hn, fun m hm l hl c h => g.frameBlob n m hn hm l hl c h⟩
 
 /-- F16a repaired but N2 not: the only guard left is `ApartOp` (about creates with auto-detected layers) -/
 theorem op_preserves_NameInv_fixedAlias {env : Env} (hv : env.v.fixAlias = true) (hinj : HashInj env)
-    (st : Store) (hi : Inv env st) (op : Op) (ch : Choice) (ha : ApartOp env st op ch) :
-    Inv env (step env st op ch).1 :=
-  let g := step_good hinj (Or.inl hv) hi op (Or.inl hv) ch ha
-  ⟨g.blobsOk, g.nameInv hi.2⟩
+    (st : Store) (hi : Inv env st) (op : Op) (ch : Choice) (ha : ApartOp env st op ch)
+    (hlit : LitterOk env op) : Inv env (step env st op ch).1 :=
+  let g := step_good hinj (Or.inl hv) hi op (Or.inl hv) ch ha hlit
+  ⟨g.blobsOk, g.nameInv hi.2.1, g.legacy hi.2.2⟩
 
 theorem history_preserves_Inv_fixed {env : Env} (hv : env.v.fixAlias = true) (hk : env.v.fixKeep = true)
-    (hinj : HashInj env) (ops : List (Op × Choice)) (st : Store) (hi : Inv env st) :
-    Inv env (run env st ops) := by
+    (hinj : HashInj env) (ops : List (Op × Choice)) (hlit : ∀ p ∈ ops, LitterOk env p.1) (st : Store)
+    (hi : Inv env st) : Inv env (run env st ops) := by
   induction ops generalizing st with
   | nil => exact hi
-  | cons p rest ih => exact ih _ (op_preserves_NameInv_fixed hv hk hinj st hi p.1 p.2)
+  | cons p rest ih =>
+    exact ih (fun q hq => hlit q (by simp [hq])) _
+      (op_preserves_NameInv_fixed hv hk hinj st hi p.1 p.2 (hlit p (by simp)))
 
-/-- **Startup prune is exact — F16a repaired, no guard** (only: every manifest parses, else prune is skipped). -/
-theorem prune_exact_fixed {env : Env} (hv : env.v.fixAlias = true) (st : Store) (hnc : st.hasCorrupt = false)
-    (k : String) :
-    (pruneStartup env st).1.blob k = if st.keyReferenced k then st.blob k else none :=
-  prune_exact_guarded env st (Or.inl hv) hnc k
+/-- **Startup prune is exact — F16a repaired, no spelling guard** (only: every manifest parses, else the prune
+    is skipped): no file of any non-blob name class is left, and exactly the referenced blobs remain. -/
+theorem prune_exact_fixed {env : Env} (hv : env.v.fixAlias = true) (st : Store) (hnc : st.hasCorrupt = false) :
+    (pruneStartup env st).1.junk = [] ∧
+    ∀ k, (pruneStartup env st).1.blob k = if st.keyReferenced k then (fixBlobs st).blob k else none :=
+  prune_exact_guarded env st (Or.inl hv) hnc
 
 /-! ## N1 repaired: a create that reports an error changes no manifest and damages nothing -/
 
@@ -378,6 +450,8 @@ theorem no_case_twins_partial (env : Env) (hv : env.v.fixResolve = false) (st : 
     | plant s d => exact absurd hapi (by simp [ApiOp])
     | corrupt n => exact h.mono (fun a ha => readable_of_rewrite env st ch n a (Or.inl ha))
     | dashify n => exact h.mono (fun a ha => readable_of_rewrite env st ch n a (Or.inr ha))
+    | litter j c => exact sub0 rfl
+    | litterBlob k c => exact sub0 rfl
   exact ⟨key, key.noTwins⟩
 
 /-- histories of API operations whose iteration orders are orders of the actual manifest map -/
@@ -448,6 +522,10 @@ theorem no_new_case_twins_fixed (env : Env) (hv : env.v.fixResolve = true) (st :
   | plant s d => exact absurd hapi (by simp [ApiOp])
   | corrupt n => exact sub0 (fun x hx => readable_of_rewrite env st ch n x (Or.inl hx))
   | dashify n => exact sub0 (fun x hx => readable_of_rewrite env st ch n x (Or.inr hx))
+  | litter j c =>
+    exact sub0 (fun x hx => (readable_frame env st _ ch x hx).elim id (fun h => by simp [targets] at h))
+  | litterBlob k c =>
+    exact sub0 (fun x hx => (readable_frame env st _ ch x hx).elim id (fun h => by simp [targets] at h))
 
 /-- hence `no_case_twins` itself is an invariant of every API operation, with no spelling guard -/
 theorem no_case_twins_fixed (env : Env) (hv : env.v.fixResolve = true) (st : Store) (op : Op) (ch : Choice)
@@ -626,6 +704,24 @@ theorem N1_repaired_witness :
     let r := step rEnv st (.create ⟨nm "library" "a", some (nm "nobody" "missing"), [], none, none, [], []⟩) ch0
     r.2 = ["e500"] ∧ r.1.man (nm "library" "a") = st.man (nm "library" "a") ∧
     (r.1.blob "G").isSome = true ∧ showAt rEnv r.1 (nm "library" "a") = "h200" := by decide +kernel
+
+/-- a directory with the classes of non-blob file names: a referenced blob "G", an orphan, a leftover
+    `…-partial`, a part record, a temp file, a malformed name and a colon-named non-digest -/
+def stW : Store := run wEnv Store.empty
+  [(.upload ⟨.colon, "G"⟩ gG, ch0), (mk (nm "library" "a") .colon, ch0),
+   (.litter (.plain "sha256-ab-partial") [1], ch0), (.litter (.plain "sha256-ab-partial-0") [2], ch0),
+   (.litter (.plain "sha256-123456789") [3], ch0), (.litter (.plain "junk.txt") [4], ch0),
+   (.litter (.colon "ab-partial") [5], ch0), (.litterBlob "orphan" [7], ch0)]
+
+/-- the startup sequence on it (non-vacuity of `prune_exact`): the referenced blob stays; every other file goes,
+    whatever its name; `fixBlobs` renames the colon-named file first (it is then removed like the others) -/
+theorem prune_classes_witness :
+    stW.junk.length = 5 ∧ (pruneStartup wEnv stW).2 = ["ok"] ∧ (pruneStartup wEnv stW).1.junk = [] ∧
+    (pruneStartup wEnv stW).1.blobs.length = 2 ∧ ((pruneStartup wEnv stW).1.blob "G").isSome = true ∧
+    (pruneStartup wEnv stW).1.blob "orphan" = none ∧
+    (fixBlobs stW).junk.map (fun p => p.1.str) =
+      ["sha256-ab-partial", "junk.txt", "sha256-123456789", "sha256-ab-partial-0"] ∧
+    incompleteB (pruneStartup wEnv stW).1 = false := by decide +kernel
 
 /-! ## non-vacuity -/
 
